@@ -145,7 +145,34 @@ func ruleOutcomeTable(p *Program, r *Report) {
 	// case table: const value -> counter field incremented on the true branch
 	caseField := map[int64]string{}
 	var tags []ssa.Value
+	// the counting switch may sit in calcStats or in a package-local helper it calls with the outcome
+	switchFns := []*ssa.Function{calc}
 	ForEachInstr(calc, func(ins ssa.Instruction) {
+		if c, ok := ins.(*ssa.Call); ok {
+			if g := c.Call.StaticCallee(); g != nil && g.Pkg == calc.Pkg && g.Blocks != nil {
+				switchFns = append(switchFns, g)
+			}
+		}
+	})
+	var swFn *ssa.Function
+	for _, sf := range switchFns {
+		hasSwitch := false
+		ForEachInstr(sf, func(ins ssa.Instruction) {
+			if bo, ok := ins.(*ssa.BinOp); ok && bo.Op == token.EQL {
+				if c, ok := bo.Y.(*ssa.Const); ok && c.Value != nil && strings.HasSuffix(c.Type().String(), "test.Outcome") {
+					hasSwitch = true
+				}
+			}
+		})
+		if hasSwitch && swFn == nil {
+			swFn = sf
+		}
+	}
+	if swFn == nil {
+		swFn = calc
+	}
+	r.Fn(FnName(swFn))
+	ForEachInstr(swFn, func(ins ssa.Instruction) {
 		bo, ok := ins.(*ssa.BinOp)
 		if !ok || bo.Op != token.EQL {
 			return
@@ -176,6 +203,19 @@ func ruleOutcomeTable(p *Program, r *Report) {
 	// directly — not an outcome that went through a map (which collapses results sharing the key)
 	if len(tags) > 0 {
 		tag := tags[0]
+		if prm, isParam := tag.(*ssa.Parameter); isParam && swFn != calc {
+			idx := -1
+			for i, q := range swFn.Params {
+				if q == prm {
+					idx = i
+				}
+			}
+			for _, c := range callsTo(calc, swFn) {
+				if idx >= 0 && idx < len(c.Call.Args) {
+					tag = c.Call.Args[idx]
+				}
+			}
+		}
 		direct := DependsOn(tag, func(x ssa.Value) bool {
 			switch y := x.(type) {
 			case *ssa.FieldAddr:
@@ -571,10 +611,18 @@ func ruleTestErrorPropagation(p *Program, r *Report) {
 		fns = append(fns, f)
 		fns = append(fns, Closures(f)...)
 	}
-	if f := p.Func("cmd/arrai", "doTest"); f != nil {
-		fns = append(fns, f)
-	} else {
-		r.Undecided("anchor@doTest", "cmd/arrai.doTest not found", 0)
+	// the command action: the function of package cmd/arrai (named or a function literal) that calls test.RunTests
+	if rt := p.Func(testPkg, "RunTests"); rt != nil {
+		found := false
+		for _, f := range p.RepoFns {
+			if PkgPathOf(f) == Mod+"/cmd/arrai" && len(callsTo(f, rt)) > 0 {
+				fns = append(fns, f)
+				found = true
+			}
+		}
+		if !found {
+			r.Undecided("anchor@doTest", "no function of cmd/arrai calls test.RunTests", 0)
+		}
 	}
 	ord := map[string]int{}
 	for _, fn := range fns {
